@@ -8,6 +8,10 @@ from vflib.ref import payout
 
 PROP = 'C12'
 RULE = (
+    '(i) bounded-exhaustive: the COMPLETE decision trees of small games '
+    '(2-3 players, stacks of 1-8 chips, hold\'em NL/FL, PLO, Kuhn, razz, '
+    'single draw; every fold/call/raise amount/discard/show-or-muck '
+    'choice) are walked under the same monitors (vflib.explore); (ii) '
     'seeded random hands driven to showdowns (side pots, split pots, hi-lo, '
     '1-3 boards, run-outs, ties, players eligible for some pots only, all-in '
     'before the river) in run A with showing/mucking and hand killing '
@@ -34,7 +38,8 @@ REQUIRED = ('showdowns', 'auto_mucks', 'auto_kills', 'twin_runs_compared',
             'winners_checked_shown', 'tournament_partial_show_probes',
             'side_pot_showdowns', 'multi_board_showdowns', 'hilo_showdowns',
             'allin_showdowns',
-            'observer_query_points')
+            'observer_query_points',
+            'trees_completed', 'explored_nodes')
 
 CUSTOMS = ('holdem8', 'plo8', 'greek', 'courchevel', 'draw5', 'badugi1',
            'stud5', 'razzdraw', 'random')
@@ -253,6 +258,8 @@ def nontrivial(ctx):
 def run_shard(seed, shard, of, tier, deadline):
     return hist.run_history_shard(
         PROP, seed, shard, of, tier, deadline, cases=CASES,
+        explore_s={'quick': 8, 'thorough': 100},
+        explore_nodes={'quick': 2500, 'thorough': 40000},
         gen_kwargs=gen_kwargs, make_monitors=make_monitors,
         nontrivial=nontrivial, pol_tweak=pol_tweak, cfg_filter=cfg_filter)
 
